@@ -26,6 +26,23 @@ META = {
  "C20": ("exhaustive enumeration N=1..512 x all names + closed-form differential over shape parameters (Hypothesis)", "4 C20"),
 }
 
+LEVEL_DEFAULT = ("No counter-example among the generated cases of the stated domain (counts, class histogram and samples in the "
+                 "evidence file), each compared with an oracle independent of the code under test (definition-level reference, "
+                 "inverse, or metamorphic relation between two runs). The property is universally quantified over numeric inputs, "
+                 "so generated search with an explicit oracle is the strongest level this technique family offers; no proof is claimed.")
+LEVEL = {
+ "C06": "Complete enumeration of every conversion sequence of length <= 4 over {onesided,twosided,centerdc} on every basis vector "
+        "(conversions are linear) for NFFT 2..17, real and complex, both access paths, and of the tools helpers on lengths 1..33, "
+        "against a frequency-keyed model; plus generated longer sequences on estimator objects. Exhaustive inside these bounds "
+        "(flagged per sub-check in evidence), exploration beyond them. No proof is claimed.",
+ "C07": "Complete enumeration of every operation history of length <= 3 (4 for four classes in the thorough tier) over the stated "
+        "attribute alphabet for all 12 classes x real/complex initial data, plus generated histories up to 30 operations, each "
+        "compared with a freshly constructed object. Exhaustive inside these bounds, exploration beyond them. No proof is claimed.",
+ "C20": "Complete enumeration of all 29 window names x N = 1..512 with default parameters (shape, symmetry, maximum, centre, ENBW, "
+        "closed forms, object, aliases), plus generated lengths up to 16384, shape parameters, rejected parameters and histories "
+        "of uses of the Window object. Exhaustive inside these bounds, exploration beyond them. No proof is claimed.",
+}
+
 # properties whose check has been reviewed, run at >= 10 seeds and is quiet on the current tree
 READY = [l.strip() for l in open(os.path.join(HERE, "checks", "READY")) if l.strip() and not l.startswith("#")]
 
@@ -45,11 +62,8 @@ def main():
                 "engine": "vcheck",
                 "level_claimed": {
                     "category": "exploration",
-                    "text": "No counter-example among the generated (and, where flagged in evidence, exhaustively enumerated) "
-                            "cases of the stated domain, each compared with an oracle independent of the code under test; "
-                            "the property is universally quantified over numeric inputs, so generated search with a "
-                            "definition-level oracle is the strongest level this technique family offers. No proof is claimed.",
-                    "design_ref": "DESIGN.md section " + ref},
+                    "text": LEVEL.get(pid, LEVEL_DEFAULT),
+                    "design_ref": "DESIGN.md section " + ref + ", 7.2 and SUBCHECKS.md"},
                 "level_note": "Trusted base: numpy/scipy linear algebra and FFT, the reference models in vlib/ref.py, Hypothesis' "
                               "generators; floating-point comparisons use the tolerances stated in DESIGN.md 2.7 and per sub-check.",
                 "technique": tech,
